@@ -257,3 +257,50 @@ func ZZ_C07_declared() {
 	rt.Observe("ok", ok)
 	rt.Reach("end")
 }
+
+// ZZ_C03_lenbytes: an ASCII/binary item whose nlb length bytes are all arbitrary while
+// `present` filler bytes follow (256 and more, so that every length byte matters): accepted
+// iff the declared length equals the bytes present; the reference decoder decides.
+func ZZ_C03_lenbytes() {
+	kind, nlb, present := rt.Param("kind"), rt.Param("nlb"), rt.Param("present")
+	item := []byte{byte(zzCodes[kind]<<2 | nlb)}
+	item = append(item, rt.Bytes("len", nlb)...)
+	for i := 0; i < present; i++ {
+		item = append(item, byte('a'+i%26))
+	}
+	in := zzFrame(1, 1, 0, 1, []byte{0, 0, 0, 1}, item)
+	zzCompareWithRef(in)
+	rt.Reach("end")
+}
+
+// ZZ_C03_mixed: a list of items whose length fields have different widths in sequence
+// (wide with a non-zero high byte, then narrow, ...), the last item's length byte and value
+// arbitrary.
+func ZZ_C03_mixed() {
+	order := rt.Param("order")
+	big := func(nlb, n int) []byte {
+		it := []byte{byte(0o20<<2 | nlb)}
+		for i := nlb - 1; i >= 0; i-- {
+			it = append(it, byte(n>>(8*uint(i))))
+		}
+		for i := 0; i < n; i++ {
+			it = append(it, byte('a'+i%26))
+		}
+		return it
+	}
+	small := append([]byte{byte(0o51<<2 | 1)}, rt.Byte("len"), rt.Byte("v"))
+	var item []byte
+	switch order {
+	case 0:
+		item = append(append(zzHeader(0, 2), big(2, 300)...), small...)
+	case 1:
+		item = append(append(zzHeader(0, 2), big(3, 257)...), small...)
+	case 2:
+		item = append(append(append(zzHeader(0, 3), big(3, 256)...), big(2, 256)...), small...)
+	case 3:
+		item = append(append(append(zzHeader(0, 3), small...), big(2, 511)...), small...)
+	}
+	in := zzFrame(1, 1, 0, 1, []byte{0, 0, 0, 1}, item)
+	zzCompareWithRef(in)
+	rt.Reach("end")
+}
